@@ -19,8 +19,54 @@ type fwdBeh struct {
 	Req  string `json:"req"`
 	Resp string `json:"resp"`
 	Idk  string `json:"idk"`
+	Cnt  string `json:"cnt"`  // on: traffic counters configured (LocalConn gets wrapped in CountingReadWriter)
+	Eofs string `json:"eofs"` // sep: the client side is a TCP conn (EOF in a Read of its own); with: an in-memory local reader whose last chunk comes together with io.EOF
 	Salt int64  `json:"salt"`
 }
+
+// memLocal is a LocalConn whose Read returns its final chunk together with io.EOF (as io.Reader
+// permits; flate / http bodies / iotest.DataErrReader do) and whose Write collects the response.
+type memLocal struct {
+	req    []byte
+	off    int
+	chunk  int
+	expect []byte
+	mu     sync.Mutex
+	got    int
+	eq     bool
+	closed chan struct{}
+	once   sync.Once
+	prog   *atomic.Int64
+}
+
+func (m *memLocal) Read(p []byte) (int, error) {
+	n := len(m.req) - m.off
+	if n > len(p) {
+		n = len(p)
+	}
+	if n > m.chunk {
+		n = m.chunk
+	}
+	copy(p, m.req[m.off:m.off+n])
+	m.off += n
+	if m.off >= len(m.req) {
+		return n, io.EOF
+	}
+	return n, nil
+}
+
+func (m *memLocal) Write(p []byte) (int, error) {
+	m.mu.Lock()
+	defer m.mu.Unlock()
+	if m.got+len(p) > len(m.expect) || string(m.expect[m.got:m.got+len(p)]) != string(p) {
+		m.eq = false
+	}
+	m.got += len(p)
+	m.prog.Add(int64(len(p)))
+	return len(p), nil
+}
+
+func (m *memLocal) Close() error { m.once.Do(func() { close(m.closed) }); return nil }
 
 // tap records what the real FrameStream.Read returns on a node ("bytes returned by
 // FrameStream.Read on the peer") while passing everything through unchanged.
@@ -64,7 +110,7 @@ type epRes struct {
 }
 
 // readPipe reads from c until want bytes arrived (toEOF=false) or end-of-stream (toEOF=true).
-func readPipe(c *net.TCPConn, expect []byte, toEOF bool, prog *atomic.Int64) epRes {
+func readPipe(c io.Reader, expect []byte, toEOF bool, prog *atomic.Int64) epRes {
 	r := epRes{eq: true}
 	buf := make([]byte, 32*1024)
 	for toEOF || r.got < len(expect) {
@@ -134,12 +180,21 @@ func driveFwd(env *fw.Env, b *fwdBeh) *fw.Trace {
 	tapA := &tap{fs: crossnode.NewFrameStream(ca, id), expect: resp, eq: true, prog: &prog}
 	tapB := &tap{fs: crossnode.NewFrameStream(cb, id), expect: req, eq: true, prog: &prog}
 
+	var mem *memLocal
+	var localA io.ReadWriter = la
+	if b.Eofs == "with" {
+		mem = &memLocal{req: req, chunk: 1 + int(b.Salt%40000), expect: resp, eq: true, closed: make(chan struct{}), prog: &prog}
+		localA = mem
+	}
 	var fwdRet atomic.Int32
 	for _, n := range []struct {
-		local *net.TCPConn
+		local io.ReadWriter
 		rem   *tap
-	}{{la, tapA}, {lb, tapB}} {
+	}{{localA, tapA}, {lb, tapB}} {
 		cfg := &session.BidirectionalForwardConfig{TunnelID: ownS, LogPrefix: "verif", LocalConn: n.local, RemoteConn: n.rem}
+		if b.Cnt == "on" {
+			cfg.BytesSentCounter, cfg.BytesReceivedCounter = &atomic.Int64{}, &atomic.Int64{}
+		}
 		go func() {
 			runBidirectionalForward(cfg) // the real forwarding loop of package session
 			fwdRet.Add(1)
@@ -147,10 +202,18 @@ func driveFwd(env *fw.Env, b *fwdBeh) *fw.Trace {
 	}
 
 	var cRes, sRes epRes
+	var memHung atomic.Bool
 	var wg sync.WaitGroup
 	wg.Add(2)
 	go func() { // client endpoint
 		defer wg.Done()
+		if mem != nil { // the in-memory local side: its reader is the request, done = closed by the forwarder
+			<-mem.closed
+			mem.mu.Lock()
+			cRes = epRes{got: mem.got, eq: mem.eq, eof: !memHung.Load(), hung: memHung.Load()}
+			mem.mu.Unlock()
+			return
+		}
 		wdone := make(chan struct{})
 		go func() {
 			defer close(wdone)
@@ -200,6 +263,10 @@ wait:
 				now := time.Now()
 				c1.SetDeadline(now)
 				s1.SetDeadline(now)
+				if mem != nil {
+					memHung.Store(true)
+					mem.Close()
+				}
 				<-done
 				break wait
 			}
@@ -229,7 +296,7 @@ wait:
 	}
 
 	t := &fw.Trace{Status: fw.Realised}
-	t.Events = append(t.Events, fw.Event{"ev": "Cfg", "kind": "fwd", "pat": b.Pat, "req": b.Req, "resp": b.Resp, "idk": b.Idk, "forwardersReturned": returned})
+	t.Events = append(t.Events, fw.Event{"ev": "Cfg", "kind": "fwd", "pat": b.Pat, "req": b.Req, "resp": b.Resp, "idk": b.Idk, "cnt": b.Cnt, "eofs": b.Eofs, "forwardersReturned": returned})
 	tapB.mu.Lock()
 	t.Events = append(t.Events, fw.Event{"ev": "FD", "dir": "ab", "sent": len(req), "len": tapB.got, "eq": tapB.eq, "eof": tapB.eof, "hung": !tapB.eof})
 	tapB.mu.Unlock()
